@@ -251,7 +251,9 @@ func decryptSymmetricAEAD(aead cipher.AEAD, ciphertext []byte, nonce []byte, tag
 	}
 
 	// Add the tag at the end of the ciphertext
-	ciphertext = append(ciphertext, tag...)
+	// Cap the capacity so that append always copies: the tag must not be
+	// written into spare capacity of the caller's ciphertext buffer.
+	ciphertext = append(ciphertext[:len(ciphertext):len(ciphertext)], tag...)
 	return aead.Open(nil, nonce, ciphertext, associatedData)
 }
 
@@ -311,7 +313,9 @@ func decryptSymmetricChaCha20Poly1305(ciphertext []byte, algorithm string, key [
 	}
 
 	// Add the tag at the end of the ciphertext
-	ciphertext = append(ciphertext, tag...)
+	// Cap the capacity so that append always copies: the tag must not be
+	// written into spare capacity of the caller's ciphertext buffer.
+	ciphertext = append(ciphertext[:len(ciphertext):len(ciphertext)], tag...)
 	return aead.Open(nil, nonce, ciphertext, associatedData)
 }
 
